@@ -136,6 +136,24 @@ PROPS["C19"] = dict(
     floor=dict(quick=2000, thorough=20000),
 )
 
+PROPS["C16"] = dict(
+    level="exploration",
+    technique="rapidcheck + threshold-grid enumerator over buffer sizes; record plaintext lengths measured by an independent wiretap codec; conformant and abusive peers played by the same codec with the real keys; OpenSSL for MFLN interop; man-in-the-middle rewriting of the ServerHello extension",
+    rule=("case kinds: Bear<->Bear session with independently generated client/server buffer sizes at each threshold (512..16384 + overhead) +-1 and "
+          "layouts, writes up to 3 fragments; OpenSSL peer in either role with the extension; ServerHello rewritten (other code / unsolicited / "
+          "duplicate / bad length); acceptance probes (exactly advertised length with min and max CBC padding, largest record that fits the input "
+          "buffer, 16385 bytes, one byte); buffers below the documented minimum. non-trivial = at least one side below 16384 and an application "
+          "write larger than the limit, or a probe/rewrite case; distinct = (mode, version, layouts, sizes, probe)"),
+    assumptions=["OpenSSL implements RFC 6066 max_fragment_length correctly in both roles",
+                 "the record carrying the ServerHello may exceed the client's limit by the hello message itself (property: 'in all records after its hello')"],
+    targets=[dict(name="c16_fraglen", src="c16_fraglen.cpp", flavour="san", libs=SSL_LIBS, noseed=True)],
+    quick=[("c16_fraglen", "enum", dict(shards=16)),
+           ("c16_fraglen", "rc", dict(cases=3200, shards=16))],
+    thorough=[("c16_fraglen", "enum", dict(shards=16)),
+              ("c16_fraglen", "rc", dict(cases=120000, shards=16))],
+    floor=dict(quick=800, thorough=8000),
+)
+
 # ---------------------------------------------------------------- manifest text
 HOOK_COMMITS = ["b37444c", "e1637c5"]
 NOT_APPLICABLE = {}
@@ -198,4 +216,14 @@ MANIFEST_TEXT["C19"] = dict(
           "exhaustive only for the alert grid."),
     design_ref="DESIGN.md section 4, C19",
     note="renegotiation at arbitrary instants is judged by stream integrity and closed-consistency (full delivery only when nothing failed); full-delivery renegotiation is in C20's quiesced sessions",
+)
+
+MANIFEST_TEXT["C16"] = dict(
+    text=("Every buffer-size threshold +-1 on each side independently (grid enumerator for split buffers in 8 protection modes; random for "
+          "shared/bidi layouts), with the plaintext length of every emitted record measured by decrypting the wire with an independent codec and "
+          "compared with a reference computation of the limit in force; MFLN code sent/echoed parsed from the wire; get_mfln_negotiated checked; "
+          "acceptance of maximum-size conformant records and refusal of oversize ones probed with crafted records; real interop with OpenSSL's "
+          "implementation of the extension."),
+    design_ref="DESIGN.md section 4, C16",
+    note="reference fragment-length function written from the header documentation; trusts OpenSSL for interop and the EVP primitives for crafted records",
 )
